@@ -234,9 +234,14 @@ def parse_suite(ctx, texts):
         if want != got: bad.append((k, t, want, got))
     ctx.stats['parse_correspondence'] = dict(texts=len(texts), mismatches=len(bad), outcomes=kinds)
     if bad:
+        bad.sort(key=lambda x: len(x[1]))
         k, t, want, got = bad[0]
         ctx.breaks.append(dict(kind='correspondence', name='parse: Hid/Parser.lean vs hidc.parser', detail=repr(dict(
             text=t[:600], impl=want[:300], model=(got or '')[:300]))[:1800]))
+        if hasattr(ctx, 'violations'):
+            for k, t, want, got in bad[:2]:
+                ctx.violations.append(dict(what='parser departs from the verified model: implementation %s, model %s' % (want[:60], (got or '')[:60]),
+                                           kind='PARSE-MODEL', source=t, args=[], config={}, implementation=want[:1500], model=(got or '')[:1500]))
     ctx.say('parser correspondence: %d texts, %d mismatches %s' % (len(texts), len(bad), kinds))
     return bad
 
@@ -279,9 +284,16 @@ def tc_suite(ctx, texts, lint=False):
     st['texts'] += len(texts); st['mismatches'] += len(bad)
     for k, v in kinds.items(): st['outcomes'][k] = st['outcomes'].get(k, 0) + v
     if bad:
+        bad.sort(key=lambda x: len(x[1]))
         k, t, want, got = bad[0]
         ctx.breaks.append(dict(kind='correspondence', name='tc: Hid/Typecheck*.lean vs Program.evaluate', detail=repr(dict(
             text=t[:700], impl=want[:300], model=(got or '')[:300]))[:2000]))
+        # the model satisfies the proved typing theorems; an input on which the implementation departs from it
+        # is a concrete input on which "accepts exactly the well-typed programs / binds the documented overload" fails
+        if hasattr(ctx, 'violations'):
+            for k, t, want, got in bad[:2]:
+                ctx.violations.append(dict(what='typechecker departs from the verified model: implementation %s, model %s' % (want[:60], (got or '')[:60]),
+                                           kind='TC-MODEL', source=t, args=[], config=dict(lint=lint), implementation=want[:1500], model=(got or '')[:1500]))
     ctx.say('typechecker correspondence%s: %d texts, %d mismatches %s' % (' (lint)' if lint else '', len(texts), len(bad), kinds))
     return bad
 
